@@ -16,7 +16,7 @@ RULE = ("Trees of memory maps (depth <= 4) generated top-down for data widths an
         "a resource behind a window with non-zero base and non-zero local offset. Distinct = "
         "canonical JSON.")
 BUDGET = {"quick": (16, 500), "thorough": (16, 12000)}
-ESSENTIAL = ["multipart_window_name", "depth>=2", "depth>=3", "dense", "sparse", "anonymous", "named", "hole_decoded",
+ESSENTIAL = ["beyond_2**53", "multipart_window_name", "depth>=2", "depth>=3", "dense", "sparse", "anonymous", "named", "hole_decoded",
              "nonzero_base_and_offset", "dense_nonzero_offset", "foreign_resource_keyerror"]
 ASSUMPTIONS = [
     "dense windows only over leaf maps (dense over non-leaf and dense-then-sparse stacks are outside the stated domain; the code asserts there)",
@@ -59,7 +59,9 @@ def _node(draw, dw, depth, min_al=0):
                 items.append(["win", child, "same", named, mode, k])
         else:
             items.append(draw(_res_item()))
-    return {"dw": dw, "al": al, "items": items, "extra_aw": draw(st.integers(0, 1))}
+    # one node in forty keeps its first resource beyond 2**53 (address arithmetic must stay exact)
+    hb = draw(st.sampled_from([0] * 39 + [(1 << 56) + 2]))
+    return {"dw": dw, "al": al, "items": items, "extra_aw": draw(st.integers(0, 1)), "hb": hb}
 
 
 @st.composite
@@ -99,7 +101,7 @@ def _build(node, counter, stats):
             children.append(_build(it[1], counter, stats))
     base_counter = counter[0]
     last = None
-    for aw in range(1, 22):
+    for aw in range(1, 22) if not _has_hb(node) else range(56, 70):
         counter[0] = base_counter
         try:
             b = _populate(node, children, aw, counter, None)
@@ -114,6 +116,10 @@ def _build(node, counter, stats):
             b = _populate(node, children, aw, counter, stats)
         return b
     raise last
+
+
+def _has_hb(node):
+    return bool(node.get("hb")) or any(it[0] == "win" and _has_hb(it[1]) for it in node["items"])
 
 
 class _NoStats:
@@ -139,6 +145,8 @@ def _populate(node, children, aw, counter, stats):
                 mm.align_to(k)
             elif mode == "gap":
                 kw["addr"] = align_up(mm.align_to(0) + k, node["al"])
+            if node.get("hb") and not any(x[0] == "res" for x in node["items"][:node["items"].index(it)]):
+                kw["addr"] = align_up(max(mm.align_to(0), node["hb"]) + k, max(node["al"], 3))
             s, e = mm.add_resource(r, name=name, size=size, **kw)
             b.local.append((r, (name,), s, e, node["dw"]))
         else:
@@ -182,9 +190,7 @@ def check(spec, stats):
         stats.label("refused_does_not_fit")
         return
     mm = b.mm
-    if mm.addr_width > MAX_ROOT_AW:
-        stats.label("skipped_root_too_large")
-        return
+    sample_mode = mm.addr_width > MAX_ROOT_AW
     expected = sorted(b.local, key=lambda x: x[2])
     stats.label(f"depth>={min(b.depth, 3)}")
     if b.depth >= 3:
@@ -218,16 +224,38 @@ def check(spec, stats):
             raise Violation("C03/find_resource-phantom", f"find_resource(never-added object) returned "
                             f"{(i.path, i.start, i.end)}")
     # 3. decode_address for every root address
-    owner = {}
-    for r, path, s, e, w in exp:
-        for a in range(s, e):
-            if a in owner:
-                raise Violation("C03/overlap", f"address {a:#x} claimed twice by the arithmetic (ranges overlap)")
-            owner[a] = (r, path)
+    if sample_mode:
+        # huge address spaces: decode at every range boundary +-1, inside every range and at a sample of other addresses
+        stats.label("huge_root_sampled")
+        import bisect
+        starts = [s for _, _, s, e, _ in exp]
+        top = 1 << mm.addr_width
+        pts = {0, top - 1}
+        for k, (_, _, s, e, _) in enumerate(exp):
+            pts.update(a for a in (s - 1, s, s + 1, (s + e) // 2, e - 1, e, e + 1) if 0 <= a < top)
+        seedv = len(exp) * 7919 + mm.addr_width
+        pts.update((seedv * (k + 1) * 0x9E3779B97F4A7C15) % top for k in range(200))
+        sweep = sorted(pts)
+
+        def owner_of(a):
+            k = bisect.bisect_right(starts, a) - 1
+            if k >= 0 and exp[k][2] <= a < exp[k][3]:
+                return (exp[k][0], exp[k][1])
+            return None
+        stats.label("beyond_2**53", any(e > (1 << 53) for _, _, s, e, _ in exp))
+    else:
+        owner = {}
+        for r, path, s, e, w in exp:
+            for a in range(s, e):
+                if a in owner:
+                    raise Violation("C03/overlap", f"address {a:#x} claimed twice by the arithmetic (ranges overlap)")
+                owner[a] = (r, path)
+        sweep = range(1 << mm.addr_width)
+        owner_of = owner.get
     holes = 0
-    for a in range(1 << mm.addr_width):
+    for a in sweep:
         g = mm.decode_address(a)
-        x = owner.get(a)
+        x = owner_of(a)
         if x is None:
             holes += 1
             if g is not None:
@@ -238,7 +266,7 @@ def check(spec, stats):
                             f"arithmetic says {counter_name(x[1])} (ranges {[(counter_name(p), s, e) for _, p, s, e, _ in exp]})")
     if holes:
         stats.label("hole_decoded")
-    stats.add("addresses_decoded", 1 << mm.addr_width)
+    stats.add("addresses_decoded", len(sweep))
     stats.add("resources", len(exp))
     stats.nontrivial = b.depth >= 2 and stats.has("nonzero_base_and_offset")
 
